@@ -26,12 +26,13 @@ SPEC = dict(
         dict(name="localdel", pkg="c08_model", test="TestModelLocalDeletion", checks=30000, shards=1),
         dict(name="multipart", pkg="c08_model", test="TestModelMultiPartition", checks=30000, shards=1),
         dict(name="known", pkg="c08_model", test="TestKnown.*", checks=1, shards=1),
+        dict(name="exhaustive", pkg="c08_model", test="TestExhaustiveSmallScope", checks=1, shards=16),
     ],
 )
 TEXT = dict(
     engine="simkv",
     design_ref="DESIGN.md §4 C08, §3-B",
     technique="model-based property testing (rapid): generated command sequences run through the real server/node/apply path and compared reply-by-reply with a from-scratch reference model",
-    level_text="Generated-input exploration against an explicit reference model: thousands of colliding command sequences per run on mem, pebble and rocksdb, both expiry policies and 2-4 partitions; every reply and every read-back must equal the model. Found and repaired four defects on the pinned tree (see known_findings.json). No absence claim; the bounded-exhaustive sub-run of the design is not built.",
+    level_text="Generated-input exploration against an explicit reference model: thousands of colliding command sequences per run on mem, pebble and rocksdb, both expiry policies and 2-4 partitions; every reply and every read-back must equal the model. Found and repaired four defects on the pinned tree (see known_findings.json). No absence claim except for the thorough tier's bounded-exhaustive sub-run: all 112,944 sequences of length <= 3 over a 48-command alphabet on the mem engine.",
     level_note="Trusted: lib/model (about 900 lines, written from Redis semantics and the user guide; deviations listed in the evidence assumptions), the fake raft (commit = apply, single replica), error comparison by class only. RocksDB is stock 7.8.3 through a patched binding.",
 )
